@@ -358,7 +358,7 @@ func (l *lawRun) random() {
 			x.feat = gen.Feature(c.Rng)
 		}
 		if c.Rng.Intn(2) == 0 {
-			x.pm = gen.Mismatches(c.Rng, n, 1+c.Rng.Intn(8))
+			x.pm = gen.Mismatches(c.Rng, n, []int{1 + c.Rng.Intn(8), 1 + c.Rng.Intn(8), 1 + c.Rng.Intn(8), 9 + c.Rng.Intn(24)}[c.Rng.Intn(4)]) // more than 8 entries: more than one bucket of a Go map
 		}
 		nw := c.Pick(24, 40)
 		l.checkSequence(x, func(n int, f func(from, to int, circular bool)) {
@@ -632,7 +632,7 @@ func (l *lawRun) sharing(deriv, mut string, mutateDerived bool, n int) {
 	x := &shadow{nuc: gen.DNAFull(c.Rng, n, 3), qual: gen.Quals(c.Rng, n), feat: gen.Feature(c.Rng), ann: gen.Annotations(c.Rng, 4)}
 	x.ann["deep"] = map[string]any{"a": map[string]any{"b": []int{1, 2, 3}}, "l": []any{map[string]int{"z": 1}}}
 	if c.Rng.Intn(2) == 0 {
-		x.pm = gen.Mismatches(c.Rng, n, 3)
+		x.pm = gen.Mismatches(c.Rng, n, []int{3, 3, 12, 20}[c.Rng.Intn(4)])
 	}
 	if strings.HasPrefix(deriv, "join") {
 		x.qual = nil
